@@ -55,6 +55,13 @@ def gen_case(ctx, k):
     option = "gillespie" if k % 2 == 0 else "tauleap"
     nenv = rng.choice([1, 2, 2, 3])
     kind = "grid" if (k // 2) % 2 == 0 else "graph"
+    cls = k % 12
+    if cls in (1, 7):
+        kind, option = "graph", "tauleap"
+    elif cls in (2, 8):
+        kind = "grid"
+    elif cls in (3, 10):
+        kind, option = "grid", "gillespie"
     space, info = stoch_gen.rand_space(rng, kind=kind, nenv=nenv, max_cells=6)
     net = stoch_gen.rand_network(rng, nenv=nenv, max_order=3)
     n = info["n"]
@@ -65,8 +72,7 @@ def gen_case(ctx, k):
             "dt": 1 / 2048, "tmax": 1e9, "state": state,
             "max_iter": ctx.n(120, 3000) if option == "gillespie" else ctx.n(12, 120),
             "edge": info["edge"] if kind == "grid" else list(info["edge"])}
-    cls = k % 8
-    if cls in (1, 5) and kind == "graph" and option == "tauleap":
+    if cls in (1, 7) and kind == "graph" and option == "tauleap":
         # low copy numbers, diffusion dominated, many steps: nodes run empty and fill again
         case["net"] = stoch_gen.rand_network(rng, nenv=nenv, max_order=1, nr=rng.choice([0, 0, 1]), chem_p=0.0)
         for sp in case["net"]["species"]:
@@ -76,7 +82,7 @@ def gen_case(ctx, k):
         case["dt"] = 1 / 128
         case["max_iter"] = ctx.n(60, 400)
         case["cls"] = "lowcopy-graph-tauleap"
-    elif cls in (2, 6) and kind == "grid":
+    elif cls in (2, 8) and kind == "grid":
         # boundary conditions that differ between the axes, with at least 3 layers along one of them
         dims = [1, rng.choice([1, 2]), rng.choice([3, 4])]
         rng.shuffle(dims)
@@ -93,7 +99,7 @@ def gen_case(ctx, k):
     if rng.random() < 0.45:
         # script units system other than the default: the engine works in the script's time unit (and in molecules)
         case["units"] = {"time": rng.choice(["ms", "min", "s"]), "quantity": rng.choice(["molecule", "molecule", "nmol", "fmol"])}
-    if cls in (3, 7) and case["kind"] == "grid" and option == "gillespie":
+    if cls in (3, 10) and case["kind"] == "grid" and option == "gillespie":
         # process history: an earlier run in the same process on a grid of the SAME shape with the OPPOSITE boundary conditions
         dims = [1, rng.choice([1, 2]), rng.choice([3, 4])]
         rng.shuffle(dims)
